@@ -481,6 +481,23 @@ def _slip_case(rng, s0, a, dyadic, shells):
     return out
 
 
+def _inbox(s, np):
+    """the same configuration with every atom moved by whole box vectors into the cell along the periodic directions, or
+    None when an atom lies outside the cell along a NON-periodic direction.  Only such systems are handed to code paths
+    that (may) build a neighbour list from them: the list builder bins positions inside the cell's bounding box
+    without bounds checks (property C03's domain), so atoms outside are a memory hazard, not an observation."""
+    V = s.box.vects
+    rel = (s.atoms.pos - s.box.origin) @ np.linalg.inv(V)
+    per = np.array([bool(x) for x in s.pbc])
+    sh = np.where(per[None, :], np.floor(rel + 1e-12), 0.0)
+    rel2 = rel - sh
+    if (rel2 < -1e-9).any() or (rel2 > 1 + 1e-9).any():
+        return None
+    if not sh.any():
+        return s
+    return _system(s, s.atoms.pos - sh @ V, pbc=s.pbc)
+
+
 def _wrapshift(rng, s, np, frac=0.3):
     """the same physical configuration held in a differently placed periodic window: in every periodic direction
     the atoms with fractional coordinate below a random cut are moved up by one box vector (what wrapping into a box
@@ -708,8 +725,10 @@ def _corr_slip_one(ctx, rng, ref, caseseed, it0, it, dyadic):
     ctx.stats.case('slip', canon, sample=info)
     _cmp(ctx, 'slip_vector', 'slip_vector(neighbors=)', _guard(lambda: am.defect.slip_vector(s0, s1, neighbors=nl0)[sel]),
          out, exact, info, decided=dec_slip)
+    s1c = _inbox(s1, np)              # (the representation handed to the cutoff= paths)
+    natural = natural and s1c is not None
     if natural:
-        _cmp(ctx, 'slip_vector:cutoff', 'slip_vector(cutoff=)', _guard(lambda: am.defect.slip_vector(s0, s1, cutoff=cut)[sel]),
+        _cmp(ctx, 'slip_vector:cutoff', 'slip_vector(cutoff=)', _guard(lambda: am.defect.slip_vector(s0, s1c, cutoff=cut)[sel]),
              out, exact, info, decided=dec_slip)
     # differential displacement -------------------------------------------------------------
     offs = np.concatenate([[0], np.cumsum([len(nl0[i]) for i in range(n)])])
@@ -724,26 +743,27 @@ def _corr_slip_one(ctx, rng, ref, caseseed, it0, it, dyadic):
         _cmp(ctx, 'ddvectors', 'DifferentialDisplacement(neighbors=, reference=0).ddvectors',
              ddv if isinstance(ddv, _Raised) else ddv[rows], out, exact, info, decided=dec_rows(rows))
     if natural:
-        ddv = _guard(lambda: am.defect.DifferentialDisplacement(s0, s1, cutoff=cut, reference=0).ddvectors)
+        ddv = _guard(lambda: am.defect.DifferentialDisplacement(s0, s1c, cutoff=cut, reference=0).ddvectors)
         if not isinstance(ddv, _Raised) and len(ddv) != offs[-1]:
             ctx.disagree('ddvectors:cutoff', 'DifferentialDisplacement(cutoff=, reference=0): number of pairs differs from '
                          'system0\'s neighbour list', info)
         else:
             _cmp(ctx, 'ddvectors:cutoff', 'DifferentialDisplacement(cutoff=, reference=0).ddvectors',
                  ddv if isinstance(ddv, _Raised) else ddv[rows], out, exact, info, decided=dec_rows(rows))
-    if natural and it % 3 == 0 and it % 4 < 2:      # (lists are only built for systems whose atoms are inside the box)
-        nl1 = s1.neighborlist(cutoff=cut)
+    if natural and it % 3 == 0:      # (lists are only built for systems whose atoms are inside the box)
+        nl1 = s1c.neighborlist(cutoff=cut)
         offs1 = np.concatenate([[0], np.cumsum([len(nl1[i]) for i in range(n)])])
         rows1 = np.concatenate([np.arange(offs1[i], offs1[i + 1]) for i in sel]).astype(int)
-        dd = am.defect.DifferentialDisplacement(s0, s1, cutoff=cut)       # default reference=1: system1's list
+        dd = am.defect.DifferentialDisplacement(s0, s1c, cutoff=cut)       # default reference=1: system1's list
         ctx.stats.case('dd:ref1', canon)
-        out1 = ctx.driver.ask(f'dd {_cell(s0)} {_cell(s1)} {n} {pos} {_nlist_tokens(nl1, n)} {_sel_tokens(sel)}')
+        out1 = ctx.driver.ask(f'dd {_cell(s0)} {_cell(s1c)} {n} {cm.frs(s0.atoms.pos)} {cm.frs(s1c.atoms.pos)} '
+                              f'{_nlist_tokens(nl1, n)} {_sel_tokens(sel)}')
         if len(dd.ddvectors) != offs1[-1]:
             ctx.disagree('ddvectors:ref1', 'DifferentialDisplacement(cutoff=) (reference=1): number of pairs differs from '
                          'system1\'s neighbour list', info)
         else:
             _cmp(ctx, 'ddvectors:ref1', 'DifferentialDisplacement(cutoff=).ddvectors (reference=1)', dd.ddvectors[rows1],
-                 out1, exact, info, decided=dec_rows(rows1, nl1))
+                 out1, exact, info, decided=_expect_pairs(s0, s1c, (V_, pb_), nl1, np)[3][rows1])
     # disregistry ---------------------------------------------------------------------------
     ax = sc['axis']
     mdir = rng.choice([k for k in range(3) if k != ax])
@@ -1150,8 +1170,10 @@ def _search_slip_one(ctx, rng, ref, caseseed, it0, it, dyadic):
                  f'box {np.round(V, 6).tolist()}, pbc {list(pb)}, rigid slip {sc["uA"].tolist()} / {sc["uB"].tolist()}'
                  f'{", atoms moved by box vectors" if wrapped else ""})', k)
     # slip vector -----------------------------------------------------------------------------
+    s1c = _inbox(s1, np)              # (the representation handed to the cutoff= paths: atoms inside the cell)
+    natural = natural and s1c is not None
     for how, kw in (('neighbors=', {'neighbors': nl0}),) + ((('cutoff=', {'cutoff': cut}),) if natural else ()):
-        sv = _guard(lambda: am.defect.slip_vector(s0, s1, **kw))
+        sv = _guard(lambda: am.defect.slip_vector(s0, s1 if 'neighbors' in kw else s1c, **kw))
         if isinstance(sv, _Raised):
             fail('slip_vector:raises', f'slip_vector({how}) raised {sv.text} (coordination {int(coordn.min())}..{int(coordn.max())})')
             continue
@@ -1162,7 +1184,7 @@ def _search_slip_one(ctx, rng, ref, caseseed, it0, it, dyadic):
                  f'{exp_slip[max(k, 0)].tolist()} ({int(coordn[max(k, 0)])} neighbours in the list)', k)
     # differential displacement ---------------------------------------------------------------
     for how, kw in (('neighbors=', {'neighbors': nl0}),) + ((('cutoff=', {'cutoff': cut}),) if natural else ()):
-        dd = _guard(lambda: am.defect.DifferentialDisplacement(s0, s1, reference=0, **kw).ddvectors)
+        dd = _guard(lambda: am.defect.DifferentialDisplacement(s0, s1 if 'neighbors' in kw else s1c, reference=0, **kw).ddvectors)
         if isinstance(dd, _Raised):
             fail('ddvectors:raises', f'DifferentialDisplacement({how}, reference=0) raised {dd.text}')
             continue
